@@ -32,6 +32,7 @@ Definition in_space (b : lbase) (v : sval) : bool :=
   && match b, v with
      | BInt k, SInt z => let '(l, h) := ibounds k in ext_leb l (Fin z) && ext_leb (Fin z) h
      | BDec, SDec d => 0 <=? d_coeff d
+     | BStr true, SText t => text_eqb (xs_trim t) t        (* anyURI: whiteSpace = collapse *)
      | _, _ => true
      end.
 
